@@ -14,6 +14,7 @@ import GeoProofs.Lemmas.LocateLemmas
 import GeoProofs.Lemmas.C02QContains
 import GeoProofs.Lemmas.C02QWinding
 import GeoProofs.Lemmas.C02QHoles
+import GeoProofs.Lemmas.C02QPerturb
 
 namespace Geo.Proofs.C02
 open Geo
@@ -567,5 +568,45 @@ the outer line (its end points are boundary when the outer line is not degenerat
 theorem lineContainsLine_degenerate (a b c : Pt) :
     lineContainsLine a b c c = (locate (.line a b) c == .inside) :=
   Geo.Proofs.C02Q.lineContainsLine_degenerate a b c
+
+/-- [T] off a closed ring, the winding number of the point perturbed by the symbolic infinitesimal
+in any direction (the face samples of the DE-9IM specification) is the winding number of the point
+(the half-open conventions differ per edge by a potential difference). First half of what H2 needs
+from validity; the second half ("the winding number jumps by one across an edge of a simple ring")
+is not proved. -/
+theorem windingE_perturb (ring : List Pt) (hc : ring.head? = ring.getLast?) (m : Pt) (x1 y1 : Rat)
+    (hoff : onAnySeg m (segs ring) = false) :
+    windingE ⟨m.x, x1, m.y, y1⟩ ring = windingE (EPt.ofPt m) ring :=
+  Geo.Proofs.C02Q.windingE_perturb ring hc m x1 y1 hoff
+
+example : windingE ⟨1, 2, 1, -5⟩ [⟨0, 0⟩, ⟨4, 0⟩, ⟨0, 4⟩, ⟨0, 0⟩] =
+    windingE (EPt.ofPt ⟨1, 1⟩) [⟨0, 0⟩, ⟨4, 0⟩, ⟨0, 4⟩, ⟨0, 0⟩] :=
+  windingE_perturb _ rfl ⟨1, 1⟩ 2 (-5) (by decide +kernel)
+
+/-- [T] `Intersects`, Polygon × Point for an OGC-valid polygon (hypothesis H2 as above). -/
+theorem intersectsM_polygon_point_valid_partial (poly : Poly) (p : Pt) (hv : polyValid poly = true)
+    (H2 : ∀ h ∈ poly.ints, ∀ h' ∈ poly.ints, ringPos p h = .inside → onAnySeg p (segs h') = false) :
+    intersectsM (.polygon poly) (.point p) = Gen.isIntersects (relateSpec (.polygon poly) (.point p)) :=
+  Loc.intersectsM_polygon_point poly p (coordPos_polygon_eq_locate_valid_partial poly p hv H2)
+
+example : intersectsM (.polygon ⟨[⟨0, 0⟩, ⟨10, 0⟩, ⟨10, 10⟩, ⟨0, 10⟩, ⟨0, 0⟩],
+      [[⟨2, 2⟩, ⟨4, 2⟩, ⟨4, 4⟩, ⟨2, 4⟩, ⟨2, 2⟩]]⟩) (.point ⟨4, 3⟩) =
+    Gen.isIntersects (relateSpec (.polygon ⟨[⟨0, 0⟩, ⟨10, 0⟩, ⟨10, 10⟩, ⟨0, 10⟩, ⟨0, 0⟩],
+      [[⟨2, 2⟩, ⟨4, 2⟩, ⟨4, 4⟩, ⟨2, 4⟩, ⟨2, 2⟩]]⟩) (.point ⟨4, 3⟩)) :=
+  intersectsM_polygon_point_valid_partial _ _ (by decide +kernel) (by decide +kernel)
+
+/-- [T] `Point.is_within(LineString)` (≥ 2 coordinates) and `Point.is_within(MultiLineString)` are
+their own mask `T*F**F***` on the specification. -/
+theorem withinM_point_lineString_partial (cs : List Pt) (c : Pt) (h2 : 2 ≤ cs.length) :
+    withinM (.point c) (.lineString cs) = Gen.isWithin (relateSpec (.point c) (.lineString cs)) :=
+  withinM_point_of_contains _ _ (containsM_lineString_point_partial cs c h2)
+
+theorem withinM_point_mls (ls : List (List Pt)) (c : Pt) :
+    withinM (.point c) (.multiLineString ls) = Gen.isWithin (relateSpec (.point c) (.multiLineString ls)) :=
+  withinM_point_of_contains _ _ (containsM_mls_point ls c)
+
+example : withinM (.point ⟨1, 0⟩) (.lineString [⟨0, 0⟩, ⟨2, 0⟩]) =
+    Gen.isWithin (relateSpec (.point ⟨1, 0⟩) (.lineString [⟨0, 0⟩, ⟨2, 0⟩])) :=
+  withinM_point_lineString_partial _ _ (by simp)
 
 end Geo.Proofs.C02
